@@ -92,7 +92,7 @@ Proof.
     destruct (a_cancel s); inversion H; subst; clear H; tok_simp; inv5; try lia; auto; i4 I4;
       try (intros SL; apply I5 in SL; tauto).
   - (* LExpire: the scan only marks *)
-    destruct (a_on_eq s); [|discriminate].
+    destruct (a_on_eq s && negb (a_expiring s)) eqn:OE; [|discriminate].
     destruct (negb match a_expire s with Some e => (e <? now)%N | None => false end); [discriminate|].
     inversion H; subst; clear H. tok_simp. inv5; try lia; auto; i4 I4.
   - (* LStop *)
@@ -185,7 +185,7 @@ Proof.
     destruct (a_stop s); [|destruct (a_abort s); [|destruct zero]]; inversion H; subst; unfold spawn; simp_a; auto.
   - destruct (p_owns s && negb (p_sleep s)); inversion H; subst; unfold spawn; simp_a; auto.
   - destruct (rv =? 0)%N; [discriminate|]. destruct (a_cancel s); inversion H; subst; unfold spawn; simp_a; auto.
-  - destruct (a_on_eq s); [|discriminate].
+  - destruct (a_on_eq s && negb (a_expiring s)) eqn:OE; [|discriminate].
     destruct (negb match a_expire s with Some e => (e <? now)%N | None => false end); [discriminate|].
     inversion H; subst; unfold spawn; simp_a; auto.
   - destruct (a_expiring s); [discriminate|]. inversion H; subst. destruct (a_cancel s); unfold spawn; cbn [app]; simp_a; auto.
@@ -334,7 +334,7 @@ Proof.
       invr; auto. rewrite !Nat.add_0_r. exact J3.
     + destruct NL as [X|(F & O & T)]; [discriminate|]. simp_a. invr; auto. intros r E. congruence.
   - (* LExpire *)
-    destruct (a_on_eq s); [|discriminate].
+    destruct (a_on_eq s && negb (a_expiring s)) eqn:OE; [|discriminate].
     destruct (negb match a_expire s with Some e => (e <? now)%N | None => false end); [discriminate|].
     inversion H; subst; clear H. unfold spawn; simp_a. rewrite dsp_threads_app.
     cbn [dsp_threads dsp_thread dsp_act]. invr; auto. rewrite ?Nat.add_0_r. exact J3.
@@ -521,7 +521,7 @@ Proof.
     destruct (a_stop s); [|destruct (a_abort s); [|destruct zero]]; inversion H; subst; unfold spawn; simp_a; auto.
   - destruct (p_owns s && negb (p_sleep s)); inversion H; subst; unfold spawn; simp_a; auto.
   - destruct (rv =? 0)%N; [discriminate|]. destruct (a_cancel s); inversion H; subst; unfold spawn; simp_a; auto.
-  - destruct (a_on_eq s); [|discriminate].
+  - destruct (a_on_eq s && negb (a_expiring s)) eqn:OE; [|discriminate].
     destruct (negb match a_expire s with Some e => (e <? now)%N | None => false end); [discriminate|].
     inversion H; subst; unfold spawn; simp_a; auto.
   - destruct (a_expiring s); [discriminate|]. inversion H; subst. destruct (a_cancel s); unfold spawn; cbn [app]; simp_a; auto.
@@ -562,3 +562,136 @@ Proof. eexists. split; [vm_compute; reflexivity|reflexivity]. Qed.
 Theorem aio_timeout_early_repaired :
   exists s, arun true aio_init early_timeout_run = Some s /\ g_early s = false /\ p_owns s = true /\ a_expiring s = false.
 Proof. eexists. split; [vm_compute; reflexivity|repeat split]. Qed.
+
+(* ---- when nni_aio_stop (nni_aio_fini) returns, the expire thread holds no reference to the
+        aio: it is not marked expiring and no continuation of the expire loop for it is
+        pending; it is off the expire list for good.  (The memory can be released.) ---- *)
+Definition exp_act (a : pact) : nat := match a with PExpireProc _ | PExpireDone => 1 | _ => 0 end.
+Fixpoint exp_thread (t : list pact) : nat := match t with [] => 0 | a :: r => exp_act a + exp_thread r end.
+Fixpoint exp_threads (ts : list (list pact)) : nat := match ts with [] => 0 | t :: r => exp_thread t + exp_threads r end.
+Definition sw_act (a : pact) : nat := match a with PStopWait => 1 | _ => 0 end.
+Fixpoint sw_thread (t : list pact) : nat := match t with [] => 0 | a :: r => sw_act a + sw_thread r end.
+Fixpoint sw_threads (ts : list (list pact)) : nat := match ts with [] => 0 | t :: r => sw_thread t + sw_threads r end.
+
+Lemma exp_thread_app a b : exp_thread (a ++ b) = exp_thread a + exp_thread b.
+Proof. induction a; cbn; lia. Qed.
+Lemma exp_threads_app a b : exp_threads (a ++ b) = exp_threads a + exp_threads b.
+Proof. induction a; cbn; lia. Qed.
+Lemma sw_thread_app a b : sw_thread (a ++ b) = sw_thread a + sw_thread b.
+Proof. induction a; cbn; lia. Qed.
+Lemma sw_threads_app a b : sw_threads (a ++ b) = sw_threads a + sw_threads b.
+Proof. induction a; cbn; lia. Qed.
+Lemma exp_replace ts : forall k t x, nth_error ts k = Some t ->
+  exp_threads (replace_nth ts k x) + exp_thread t = exp_threads ts + match x with Some t' => exp_thread t' | None => 0 end.
+Proof.
+  induction ts as [|t0 r IH]; intros k t x H; destruct k; cbn in *; try discriminate.
+  - inversion H; subst. destruct x; cbn; lia.
+  - specialize (IH k t x H). lia.
+Qed.
+Lemma sw_replace ts : forall k t x, nth_error ts k = Some t ->
+  sw_threads (replace_nth ts k x) + sw_thread t = sw_threads ts + match x with Some t' => sw_thread t' | None => 0 end.
+Proof.
+  induction ts as [|t0 r IH]; intros k t x H; destruct k; cbn in *; try discriminate.
+  - inversion H; subst. destruct x; cbn; lia.
+  - specialize (IH k t x H). lia.
+Qed.
+
+Definition InvE (s : aio) : Prop :=
+  exp_threads (threads s) = (if a_expiring s then 1 else 0) /\
+  (a_stop s = true -> a_on_eq s = false) /\
+  (0 < sw_threads (threads s) \/ g_stop_returned s = true -> a_stop s = true /\ a_expiring s = false).
+
+Lemma invE_init : InvE aio_init.
+Proof. unfold InvE; cbn. split; [reflexivity|]. split; [intros; reflexivity|]. intros [X|X]; [lia|discriminate]. Qed.
+
+Ltac inve := split; [|split].
+Ltac e2t E2 := let ST := fresh "ST" in intros ST; try (rewrite (E2 ST)); try match goal with |- context [if ?b then _ else _] => destruct b end; auto.
+
+Lemma opt_thread_exp rest : match match rest with [] => None | _ :: _ => Some rest end with Some t' => exp_thread t' | None => 0 end = exp_thread rest.
+Proof. destruct rest; reflexivity. Qed.
+Lemma opt_thread_sw rest : match match rest with [] => None | _ :: _ => Some rest end with Some t' => sw_thread t' | None => 0 end = sw_thread rest.
+Proof. destruct rest; reflexivity. Qed.
+
+Theorem invE_step fixed s l s' : InvE s -> astep fixed s l = Some s' -> InvE s'.
+Proof.
+  intros (E1 & E2 & E3) H. unfold InvE.
+  destruct l as [zero dl sleep eok|rv|rv|now| | |k| | | ]; cbn [astep] in H.
+  - destruct (outstanding s); [discriminate|].
+    destruct (a_stop s) eqn:ST; [|destruct (a_abort s); [|destruct zero]]; inversion H; subst; clear H;
+      unfold spawn; simp_a; rewrite ?exp_threads_app, ?sw_threads_app; cbn [exp_threads exp_thread exp_act sw_threads sw_thread sw_act];
+      rewrite ?Nat.add_0_r; inve; auto; try (intros; discriminate); try (intros X; destruct (E3 X); congruence).
+  - destruct (p_owns s && negb (p_sleep s)); inversion H; subst; clear H.
+    unfold spawn; simp_a; rewrite ?exp_threads_app, ?sw_threads_app; cbn [exp_threads exp_thread exp_act sw_threads sw_thread sw_act];
+      rewrite ?Nat.add_0_r; inve; auto.
+  - destruct (rv =? 0)%N; [discriminate|]. destruct (a_cancel s); inversion H; subst; clear H;
+      unfold spawn; simp_a; rewrite ?exp_threads_app, ?sw_threads_app; cbn [exp_threads exp_thread exp_act sw_threads sw_thread sw_act];
+      rewrite ?Nat.add_0_r; inve; auto.
+  - destruct (a_on_eq s && negb (a_expiring s)) eqn:OE; [|discriminate]. apply andb_true_iff in OE as [O1 O2].
+    destruct (negb match a_expire s with Some e => (e <? now)%N | None => false end); [discriminate|].
+    inversion H; subst; clear H. destruct (a_expiring s) eqn:EX; [discriminate|].
+    unfold spawn; simp_a; rewrite ?exp_threads_app, ?sw_threads_app; cbn [exp_threads exp_thread exp_act sw_threads sw_thread sw_act].
+    inve; [lia|e2t E2|]. rewrite Nat.add_0_r. intros X. destruct (E3 X) as [ST _]. rewrite (E2 ST) in O1. discriminate.
+  - destruct (a_expiring s) eqn:EX; [discriminate|]. inversion H; subst; clear H.
+    destruct (a_cancel s); unfold spawn; cbn [app]; simp_a; rewrite ?exp_threads_app, ?sw_threads_app;
+      cbn [exp_threads exp_thread exp_act sw_threads sw_thread sw_act]; inve; auto; lia.
+  - inversion H; subst; clear H.
+    destruct (a_cancel s); unfold spawn; simp_a; rewrite ?exp_threads_app, ?sw_threads_app;
+      cbn [exp_threads exp_thread exp_act sw_threads sw_thread sw_act]; rewrite ?Nat.add_0_r; inve; auto;
+      intros X; destruct (E3 X); auto.
+  - destruct (nth_error (threads s) k) as [[|a rest]|] eqn:N; try discriminate.
+    destruct (run_pact fixed s a) as [[s1 more]|] eqn:R; [|discriminate]. inversion H; subst; clear H. simp_a.
+    pose proof (exp_replace (threads s) k (a :: rest)) as XR. pose proof (sw_replace (threads s) k (a :: rest)) as SR.
+    destruct a; cbn [run_pact] in R.
+    + inversion R; subst s1 more; clear R. unfold do_dispatch; simp_a. cbn [app].
+      specialize (XR (match rest with [] => None | _ :: _ => Some rest end) N). specialize (SR (match rest with [] => None | _ :: _ => Some rest end) N). rewrite opt_thread_exp in XR. rewrite opt_thread_sw in SR.
+      cbn [exp_thread exp_act sw_thread sw_act] in *. inve; [lia|e2t E2|]. intros X. apply E3. destruct X; [left; lia|right; auto].
+    + inversion R; subst s1 more; clear R. unfold do_finish; simp_a. cbn [app].
+      specialize (XR (Some (PDispatch :: rest)) N). specialize (SR (Some (PDispatch :: rest)) N).
+      cbn [exp_thread exp_act sw_thread sw_act] in *. inve; [lia|e2t E2|]. intros X. apply E3. destruct X; [left; lia|right; auto].
+    + unfold do_call_cancel in R. destruct (p_owns s); inversion R; subst s1 more; clear R; simp_a; cbn [app].
+      * specialize (XR (Some (PFinish rv :: rest)) N). specialize (SR (Some (PFinish rv :: rest)) N).
+        cbn [exp_thread exp_act sw_thread sw_act] in *. inve; [lia|e2t E2|]. intros X. apply E3. destruct X; [left; lia|right; auto].
+      * specialize (XR (match rest with [] => None | _ :: _ => Some rest end) N). specialize (SR (match rest with [] => None | _ :: _ => Some rest end) N). rewrite opt_thread_exp in XR. rewrite opt_thread_sw in SR.
+        cbn [exp_thread exp_act sw_thread sw_act] in *. inve; [lia|e2t E2|]. intros X. apply E3. destruct X; [left; lia|right; auto].
+    + (* PExpireProc: the aio is marked (E1), so nobody is stopping it *)
+      assert (EX: a_expiring s = true).
+      { destruct (a_expiring s); [reflexivity|]. specialize (XR None N). cbn [exp_thread exp_act] in XR. lia. }
+      assert (NS: ~ (0 < sw_threads (threads s) \/ g_stop_returned s = true)) by (intros X; destruct (E3 X); congruence).
+      unfold do_expire_proc in R.
+      destruct (fixed && negb match a_expire s with Some e => (e <? now)%N | None => false end).
+      * inversion R; subst s1 more; clear R. simp_a. cbn [app].
+        specialize (XR (match rest with [] => None | _ :: _ => Some rest end) N). specialize (SR (match rest with [] => None | _ :: _ => Some rest end) N). rewrite opt_thread_exp in XR. rewrite opt_thread_sw in SR.
+        cbn [exp_thread exp_act sw_thread sw_act] in *. rewrite EX in *. inve; [lia|e2t E2|]. intros X. exfalso. apply NS. destruct X; [left; lia|right; auto].
+      * destruct (a_sleep s); [|destruct (a_cancel s)]; inversion R; subst s1 more; clear R; simp_a; cbn [app].
+        -- specialize (XR (Some (PDispatch :: rest)) N). specialize (SR (Some (PDispatch :: rest)) N).
+           cbn [exp_thread exp_act sw_thread sw_act] in *. rewrite EX in *. inve; [lia|e2t E2|]. intros X. exfalso. apply NS. destruct X; [left; lia|right; auto].
+        -- specialize (XR (Some (PCallCancel (if a_expire_ok s then A_OK else A_TIMEDOUT) :: PExpireDone :: rest)) N).
+           specialize (SR (Some (PCallCancel (if a_expire_ok s then A_OK else A_TIMEDOUT) :: PExpireDone :: rest)) N).
+           cbn [exp_thread exp_act sw_thread sw_act] in *. rewrite EX in *. inve; [lia|e2t E2|]. intros X. exfalso. apply NS. destruct X; [left; lia|right; auto].
+        -- specialize (XR (match rest with [] => None | _ :: _ => Some rest end) N). specialize (SR (match rest with [] => None | _ :: _ => Some rest end) N). rewrite opt_thread_exp in XR. rewrite opt_thread_sw in SR.
+           cbn [exp_thread exp_act sw_thread sw_act] in *. rewrite EX in *. inve; [lia|e2t E2|]. intros X. exfalso. apply NS. destruct X; [left; lia|right; auto].
+    + (* PExpireDone *)
+      assert (EX: a_expiring s = true).
+      { destruct (a_expiring s); [reflexivity|]. specialize (XR None N). cbn [exp_thread exp_act] in XR. lia. }
+      assert (NS: ~ (0 < sw_threads (threads s) \/ g_stop_returned s = true)) by (intros X; destruct (E3 X); congruence).
+      inversion R; subst s1 more; clear R. simp_a. cbn [app].
+      specialize (XR (match rest with [] => None | _ :: _ => Some rest end) N). specialize (SR (match rest with [] => None | _ :: _ => Some rest end) N). rewrite opt_thread_exp in XR. rewrite opt_thread_sw in SR.
+      cbn [exp_thread exp_act sw_thread sw_act] in *. rewrite EX in *. inve; [lia|e2t E2|]. intros X. exfalso. apply NS. destruct X; [left; lia|right; auto].
+    + (* PStopWait *)
+      destruct (t_busy s =? 0); inversion R; subst s1 more; clear R. simp_a. cbn [app].
+      specialize (XR (match rest with [] => None | _ :: _ => Some rest end) N). specialize (SR (match rest with [] => None | _ :: _ => Some rest end) N). rewrite opt_thread_exp in XR. rewrite opt_thread_sw in SR.
+      cbn [exp_thread exp_act sw_thread sw_act] in *. inve; [lia|e2t E2|]. intros _. apply E3. left. lia.
+  - destruct (t_queued s); [discriminate|]. inversion H; subst. simp_a. inve; auto.
+  - destruct (t_running s); [discriminate|]. inversion H; subst. simp_a. inve; auto.
+  - destruct (outstanding s); [discriminate|]. inversion H; subst. simp_a. inve; auto.
+Qed.
+
+Theorem aio_stop_no_expire_reference fixed ls : forall s s', InvE s -> arun fixed s ls = Some s' ->
+  InvE s' /\ (g_stop_returned s' = true ->
+              a_expiring s' = false /\ exp_threads (threads s') = 0 /\ a_on_eq s' = false).
+Proof.
+  induction ls as [|l r IH]; intros s s' HI H; cbn [arun] in H.
+  - inversion H; subst. split; [exact HI|]. destruct HI as (E1 & E2 & E3). intros G.
+    destruct (E3 (or_intror G)) as [ST EX]. rewrite EX in E1. auto.
+  - destruct (astep fixed s l) as [s1|] eqn:S; [|discriminate]. eapply IH; [eapply invE_step; eauto|exact H].
+Qed.
